@@ -51,6 +51,9 @@ Proof. destruct l; reflexivity. Qed.
 Lemma dropN3 {A} (a b c : A) r : dropN 3 (a :: b :: c :: r) = r.
 Proof. destruct r; reflexivity. Qed.
 
+Lemma dropN1 {A} (x : A) l : dropN 1 (x :: l) = l.
+Proof. destruct l; reflexivity. Qed.
+
 Lemma takeN_app_exact {A} (l r : list A) n : n = lenN l -> takeN n (l ++ r) = l.
 Proof.
   intros ->. rewrite takeN_firstn, lenN_length, Nat2N.id.
